@@ -35,7 +35,7 @@ def argOf : Sexp → Option Dyn.Arg
   | .atom s => s.toNat?.map .dyn
   | _ => none
 
-def specOf (args : List Sexp) : Option Dyn.Spec := args.mapM fun a => do (← toList? a).mapM argOf
+def specOf (args : List Sexp) : Option Dyn.Bsms := args.mapM fun a => do (← toList? a).mapM argOf
 
 def be16 (n : Nat) : Bytes := [n / 256 % 256, n % 256]
 def be32 (n : Nat) : Bytes := [n / 16777216 % 256, n / 65536 % 256, n / 256 % 256, n % 256]
@@ -47,7 +47,7 @@ def labelsFullBody (k : Nat) : Bytes :=
   let lnt := be16 k ++ (List.range k).flatMap (fun i => be16 (i + 1) ++ [0, 1])
   [0, 1, 0, 1] ++ be32 65535 ++ code ++ [0, 1, 0, 0, 255, 255, 0, 0, 0, 0] ++ [0, 1] ++ be16 25 ++ be32 lnt.length ++ lnt
 
-def chainSpec (k : Nat) : Dyn.Spec := (List.range k).map fun i => if i + 1 < k then [.dyn (i + 1)] else []
+def chainSpec (k : Nat) : Dyn.Bsms := (List.range k).map fun i => if i + 1 < k then [.dyn (i + 1)] else []
 
 /-- the outcome class of a plain op -/
 def runPlain (op : String) (args : List Sexp) : Option (Outcome Sexp × Acct) :=
